@@ -61,8 +61,9 @@ def dpBlock (P : Bytes) (dp : Dp) (block : Nat) : Except Err Bytes :=
   match activeBit dp.lv2bits block with
   | none => .error .indexError
   | some act =>
-    let win := slice P dp.lv3.offset (dp.lv3.size * 2)
-    .ok (slice win ((if act then dp.lv3.size else 0) + block * dp.lv3.bs) dp.lv3.bs)
+    -- the SubsectionIO window [lv3.offset, lv3.offset + 2*size): seek(pos); read(bs), clamped to the window
+    let pos := (if act then dp.lv3.size else 0) + block * dp.lv3.bs
+    .ok (slice P (dp.lv3.offset + pos) (min dp.lv3.bs (dp.lv3.size * 2 - pos)))
 
 /-- `DPFSLevel3.get_data(offset, size)` joined (callers pass `size > 0`, `offset ≤ lv3.size`) -/
 def dpGetData (P : Bytes) (dp : Dp) (offset size : Nat) : Except Err Bytes :=
